@@ -114,9 +114,14 @@ namespace sqf::parser::assembly
         {
             auto it = start;
             auto len = ::sqf::runtime::util::strlen(against);
-            for (size_t i = 0; i < len && it < m_end; i++, ++it)
+            size_t i = 0;
+            for (; i < len && it < m_end; i++, ++it)
             {
                 if ((char)std::tolower(*it) != against[i]) { return 0; }
+            }
+            if (i < len)
+            { // input ended inside the keyword: only a prefix matched
+                return 0;
             }
             if (it < m_end && ((char)std::tolower(*it) >= 'a' && (char)std::tolower(*it) <= 'z'))
             {
@@ -229,6 +234,10 @@ namespace sqf::parser::assembly
                             m_line++;
                             m_column = 0;
                         }
+                        if (iter == m_end)
+                        { // unterminated string
+                            break;
+                        }
                         ++iter;
                     }
                     // set length
@@ -303,6 +312,10 @@ namespace sqf::parser::assembly
                         {
                             m_line++;
                             m_column = 0;
+                        }
+                        if (iter == m_end)
+                        { // unterminated string
+                            break;
                         }
                         ++iter;
                     }
